@@ -221,6 +221,9 @@ pub fn table_defs(tdef: &str) -> String {
     if tdef == "udef" {
         return "CREATE TABLE t(line = 'k=([a-z]+)? v=(-?[0-9]+)?', line[1] => k TEXT, line[2] => v INT);\nCREATE TABLE u(jl = 'k=([a-z]+)? v=(-?[0-9]+)?', jl[1] => k TEXT, jl[2] => w INT DEFAULT 7);".to_string();
     }
+    if tdef == "ukdef" {
+        return "CREATE TABLE t(line = 'k=([a-z]+)? v=(-?[0-9]+)?', line[1] => k TEXT, line[2] => v INT);\nCREATE TABLE u(jl = 'k=([a-z]+)? v=(-?[0-9]+)?', jl[1] => k TEXT DEFAULT 'a', jl[2] => w INT);".to_string();
+    }
     let (a, z) = if tdef == "anch" { ("^", "$") } else { ("", "") };
     if tdef == "vreal" {
         return "CREATE TABLE t(line = 'k=([a-z]+)? v=(-?[0-9.]+)?', line[1] => k TEXT, line[2] => v REAL);\nCREATE TABLE u(jl = 'k=([a-z]+)? v=(-?[0-9]+)?', jl[1] => k TEXT, jl[2] => w INT);".to_string();
